@@ -22,6 +22,18 @@ Proof. exact exit_status_iff. Qed.
 Theorem C07_error_count_is_errors : forall c ds, snd (totals c ds) = length (filter is_error ds).
 Proof. exact error_total_is_count. Qed.
 
+(* from the side of what must not happen: any generator result at all (hence any write attempt, printed generator message
+   or generator error) presupposes an error-free compilation without --dry-run *)
+Theorem C07_file_written_only_after_clean_compile : forall c r, In r (gen_results c) -> has_errors (rc_diags c) = false /\ rc_dry_run c = false.
+Proof. exact file_written_only_after_clean_compile. Qed.
+(* a single error anywhere among the diagnostics, whatever else was reported: nothing is started, the status is 1 *)
+Theorem C07_one_error_stops_everything : forall c d, In d (rc_diags c) -> d_lint d = None -> gen_results c = [] /\ exit_status c = 1.
+Proof. exact one_error_stops_everything. Qed.
+(* warnings alone: status 0 under --dry-run, otherwise 0 exactly when every generator and every write succeeded *)
+Theorem C07_warnings_only_status : forall c, (forall d, In d (rc_diags c) -> d_lint d <> None) ->
+  exit_status c = 0 <-> (rc_dry_run c = true \/ forall r, In r (gen_results c) -> gen_errors r = 0).
+Proof. exact warnings_only_status. Qed.
+
 Example C07_example :
   let warn := {| d_lint := Some [68%N]; d_file := None; d_scope := None |} in
   let c := {| rc_diags := [warn; warn]; rc_ctx := {| c_cli := []; c_file_allows := []; c_ents := [] |}; rc_dry_run := false;
